@@ -959,13 +959,14 @@ Definition hash_tokens (l : list N) : N :=
   fold_left (fun h t => (h * hash_b + t + 1) mod hash_p) l 7.
 
 (* one correspondence case: (hash of the as-written model's output, hash of the fixed model's output,
-   monitor bits of the as-written run: 4 leak, 8 clsdecl, 16 non-typing import requested,
-   32 fresh class injected, 64 Generic base added, 128 error) *)
+   monitor bits of the as-written run, monitor bits of the fixed run): 4 leak, 8 clsdecl,
+   16 non-typing import requested, 32 fresh class injected, 64 Generic base added, 128 error *)
 Definition bit (b : bool) (w : N) : N := if b then w else 0.
-Definition check_case (c : list item * list item) : N * N * N :=
+Definition monitor_bits (m : merged) : N :=
+  bit (m_leak m) 4 + bit (m_clsdecl m) 8 + bit (negb (needs_typing_only m)) 16 +
+  bit (negb (Nat.eqb (length (m_fresh m)) 0)) 32 + bit (m_generic m) 64 + bit (m_err m) 128.
+Definition check_case (c : list item * list item) : N * N * N * N :=
   let '(p, s) := c in
   let ma := merge AsWritten p s in
   let mf := merge Fixed p s in
-  (hash_tokens (ser_merged ma), hash_tokens (ser_merged mf),
-   bit (m_leak ma) 4 + bit (m_clsdecl ma) 8 + bit (negb (needs_typing_only ma)) 16 +
-   bit (negb (Nat.eqb (length (m_fresh ma)) 0)) 32 + bit (m_generic ma) 64 + bit (m_err ma) 128).
+  (hash_tokens (ser_merged ma), hash_tokens (ser_merged mf), monitor_bits ma, monitor_bits mf).
